@@ -132,6 +132,25 @@ static inline NanoValue stack_peek(VmState *vm, uint32_t offset) {
 }
 
 /* ========================================================================
+ * Helper: integer division
+ *
+ * Division by zero yields 0.  INT64_MIN / -1 and INT64_MIN % -1 overflow
+ * (SIGFPE on x86); they are defined like the other wrapping integer
+ * operations: a / -1 == -a (wrapping), a % -1 == 0.
+ * ======================================================================== */
+
+static inline int64_t vm_idiv(int64_t a, int64_t b) {
+    if (b == 0) return 0;
+    if (b == -1) return (int64_t)(0 - (uint64_t)a);
+    return a / b;
+}
+
+static inline int64_t vm_imod(int64_t a, int64_t b) {
+    if (b == 0 || b == -1) return 0;
+    return a % b;
+}
+
+/* ========================================================================
  * Helper: output stream
  * ======================================================================== */
 
@@ -702,7 +721,7 @@ VmTrap vm_core_execute(VmState *vm) {
             if (b.tag == TAG_ENUM) { b = val_int((int64_t)b.as.enum_val); }
             if (a.tag == TAG_INT && b.tag == TAG_INT) {
                 /* Division by zero = 0 (matches Coq semantics) */
-                stack_push(vm, val_int(b.as.i64 == 0 ? 0 : a.as.i64 / b.as.i64));
+                stack_push(vm, val_int(vm_idiv(a.as.i64, b.as.i64)));
             } else if (a.tag == TAG_FLOAT && b.tag == TAG_FLOAT) {
                 stack_push(vm, val_float(b.as.f64 == 0.0 ? 0.0 : a.as.f64 / b.as.f64));
             } else if (a.tag == TAG_FLOAT && b.tag == TAG_INT) {
@@ -720,7 +739,7 @@ VmTrap vm_core_execute(VmState *vm) {
                     NanoValue eb = arr_b->elements[ai];
                     NanoValue ev;
                     if (ea.tag == TAG_INT && eb.tag == TAG_INT)
-                        ev = val_int(eb.as.i64 == 0 ? 0 : ea.as.i64 / eb.as.i64);
+                        ev = val_int(vm_idiv(ea.as.i64, eb.as.i64));
                     else {
                         double da = ea.tag == TAG_FLOAT ? ea.as.f64 : (double)ea.as.i64;
                         double db = eb.tag == TAG_FLOAT ? eb.as.f64 : (double)eb.as.i64;
@@ -748,9 +767,9 @@ VmTrap vm_core_execute(VmState *vm) {
                     double ds = scalar.tag == TAG_FLOAT ? scalar.as.f64 : (double)scalar.as.i64;
                     if (ea.tag == TAG_INT && scalar.tag == TAG_INT) {
                         if (arr_is_left)
-                            ev = val_int(scalar.as.i64 == 0 ? 0 : ea.as.i64 / scalar.as.i64);
+                            ev = val_int(vm_idiv(ea.as.i64, scalar.as.i64));
                         else
-                            ev = val_int(ea.as.i64 == 0 ? 0 : scalar.as.i64 / ea.as.i64);
+                            ev = val_int(vm_idiv(scalar.as.i64, ea.as.i64));
                     } else {
                         double dr = arr_is_left ? (ds == 0.0 ? 0.0 : da / ds)
                                                 : (da == 0.0 ? 0.0 : ds / da);
@@ -774,7 +793,7 @@ VmTrap vm_core_execute(VmState *vm) {
             NanoValue b = stack_pop(vm);
             NanoValue a = stack_pop(vm);
             if (a.tag == TAG_INT && b.tag == TAG_INT) {
-                stack_push(vm, val_int(b.as.i64 == 0 ? 0 : a.as.i64 % b.as.i64));
+                stack_push(vm, val_int(vm_imod(a.as.i64, b.as.i64)));
             } else {
                 return trap_error(vm, VM_ERR_TYPE_ERROR, "MOD: type error");
             }
